@@ -68,3 +68,15 @@ Theorem C10_truncated_valid_stream :
     exists later, evs = flat_events r ++ later /\ pr_end r = PRaise DecodeErr /\ length (pr_frames r) = length fs1.
 Proof. exact truncated_valid_stream. Qed.
 Print Assumptions C10_truncated_valid_stream.
+
+(* ... and cut exactly at a frame boundary, the delivered part is itself a valid stream: the parser
+   yields the events of the delivered frames -- a prefix -- and ends normally.  With
+   C10_truncated_valid_stream this covers every cut position after the options frame. *)
+Theorem C10_cut_at_frame_boundary :
+  forall (fs1 fs2 : list frame) (evs : list event) (grouped : bool),
+    run_frames (fs1 ++ fs2) = Valid evs -> Forall small fs1 -> flat_map f_rows fs1 <> [] ->
+    (match fs1 with g :: _ => (f_rows g = [] /\ f_meta g = []) \/ f_rows g <> [] | [] => True end) ->
+    let r := parse_stream Generic grouped false (write_delimited fs1) in
+    exists later, evs = flat_events r ++ later /\ pr_end r = PEnd /\ length (pr_frames r) = length fs1.
+Proof. exact cut_at_frame_boundary. Qed.
+Print Assumptions C10_cut_at_frame_boundary.
